@@ -68,13 +68,24 @@ type Req struct {
 
 func buildBody(c Case, r Req) (body []byte, hasBody bool) {
 	var valid []byte
+	kind := r.Body
 	if c.Server == "chunk" {
 		u := chunkUniverse(c.Seed)
 		obj := u[r.Target]
 		if obj == nil {
 			obj = u["P"]
 		}
-		switch r.Body {
+		// other-truncated / other-trailing / other-flip: the damaged transfer form of ANOTHER object (a body
+		// whose leading part is a well-formed frame of something else), whatever the target
+		if strings.HasPrefix(kind, "other-") {
+			kind = kind[len("other-"):]
+			if o := u[r.BodyObj]; o != nil && o.Plain != nil {
+				obj = o
+			} else {
+				obj = u["R"]
+			}
+		}
+		switch kind {
 		case "other":
 			if o := u[r.BodyObj]; o != nil && o.Plain != nil {
 				return encode(o.Plain, c.Compressed), true
@@ -99,8 +110,9 @@ func buildBody(c Case, r Req) (body []byte, hasBody bool) {
 			return compress(makeIndex(r.BodySeed)), true
 		}
 		valid = makeIndex(r.BodySeed)
+		kind = strings.TrimPrefix(kind, "other-")
 	}
-	switch r.Body {
+	switch kind {
 	case "valid":
 		return valid, true
 	case "garbage":
@@ -690,7 +702,7 @@ var spec = &hx.Spec[Case]{
 		"path:well", "path:wrong-prefix", "path:wrong-suffix", "path:upper-hex", "path:short-id", "path:long-id", "path:dotdot", "path:encoded",
 		"path:double-slash", "path:trailing-slash", "path:empty", "path:long", "path:ctl", "path:subdir", "path:dots",
 		"hdr:absent", "hdr:wrong", "hdr:right", "hdr:case", "hdr:whitespace", "hdr:two", "hdr:wrong-longer", "hdr:wrong-shorter",
-		"body:valid", "body:other", "body:garbage",
+		"body:valid", "body:other", "body:other-trailing", "body:other-truncated", "body:other-flip", "body:garbage",
 		"out:auth-refused", "out:get-200", "out:put-stored", "out:bad-upload-refused", "out:readonly-put-refused", "out:unverified-upload-stored",
 		"out:unreached", "out:redirect", "out:ows-accepted-on-wire", "out:ows-refused-direct", "out:bad-path-refused",
 	},
@@ -810,9 +822,9 @@ func TestEnum(t *testing.T) {
 				others = []string{"P", "R", "Q", "N", "E"}
 			}
 			for _, tg := range targets {
-				for _, kind := range []string{"valid", "garbage", "wrongmode", "empty", "none", "truncated", "trailing", "flip", "other"} {
+				for _, kind := range []string{"valid", "garbage", "wrongmode", "empty", "none", "truncated", "trailing", "flip", "other", "other-truncated", "other-trailing", "other-flip"} {
 					os := []string{""}
-					if kind == "other" {
+					if strings.HasPrefix(kind, "other") {
 						os = others
 					}
 					for _, bo := range os {
